@@ -603,7 +603,23 @@ func (r *Runner) Run(steps []Step) bool {
 					}
 				}
 				if err == nil {
-					r.viol(at, "missing-error", classOwnersVia(s.op(), s.app(), via, true), fmt.Sprintf("%s %v reported success, model demands one of %v", s.op(), s.args(), s.app()), nil, "missing-error:"+s.op()+":"+strings.Join(s.app(), "+"))
+					owners := classOwnersVia(s.op(), s.app(), via, true)
+					r.viol(at, "missing-error", owners, fmt.Sprintf("%s %v reported success, model demands one of %v", s.op(), s.args(), s.app()), nil, "missing-error:"+s.op()+":"+strings.Join(s.app(), "+"))
+					if r.foreign(owners) && (s.op() == "delete" || s.op() == "deleteTeam") {
+						// another property's divergence: a delete went through that the model refuses.  What the id leaves behind is still
+						// this property's business -- go on blind, after the raw scan for the id
+						r.blind = true
+						gone := false
+						if s.op() == "delete" {
+							gone = !env.S.People.IsEntityPresent(ctx.Tx(), env.Tok.Real(str(s.args()["id"])))
+						} else {
+							gone = !env.S.Teams.IsEntityPresent(ctx.Tx(), env.Tok.Real(str(s.args()["id"])))
+						}
+						if gone {
+							r.residueOf(at, ctx.Tx(), s, []string{str(s.args()["id"])})
+						}
+						continue
+					}
 					divergedAt = at
 					opErr = ErrEnd
 					return ErrEnd
@@ -793,6 +809,11 @@ func (r *Runner) residue(at int, tx *bbolt.Tx, before map[string]any, s *Step) {
 			}
 		}
 	}
+	r.residueOf(at, tx, s, gone)
+}
+
+// residueOf scans the raw file for the given (model) ids, which a call has just deleted
+func (r *Runner) residueOf(at int, tx *bbolt.Tx, s *Step, gone []string) {
 	if len(gone) == 0 {
 		return
 	}
